@@ -217,7 +217,13 @@ impl<T: Read + Seek, D: Read + Seek, S: ReadableShape, R: dbase::ReadableRecord>
 
     fn next(&mut self) -> Option<Self::Item> {
         let shape = match self.shape_iter.next()? {
-            Err(e) => return Some(Err(e)),
+            Err(e) => {
+                // The shape iterator has moved on to the next shape,
+                // the row of the shape that could not be read is skipped
+                // so that the next shape is paired with its own row
+                let _ = self.record_iter.next();
+                return Some(Err(e));
+            }
             Ok(shp) => shp,
         };
 
